@@ -553,10 +553,18 @@ pub fn mentions_param_rule(cx: &Cx, rep: &mut Report) {
     if let Some(f) = find_fn(ix, &|f| f.self_ty.as_deref() == Some("GenericParamSet") && sig_text(f).contains("&Generics")) {
         let outs = ev.call_fn(St::new(), &f, None, vec![sym("Generics", "generics")]);
         let mut ins = std::collections::BTreeMap::new();
-        for (st, _) in &outs {
-            let var = st.cond.iter().find(|(a, b)| **b && a.contains("params[*] is ")).map(|(a, _)| a.rsplit(" is ").next().unwrap_or("").to_string()).unwrap_or("other".into());
-            let inserted = notes(st).iter().any(|n| n.contains(".insert(") && n.contains(&format!("params[*].{var}")));
-            ins.insert(var, inserted);
+        for (st, fl) in &outs {
+            // the kind of the (one symbolic) parameter on this path; a path that only excludes kinds stands for the remaining one
+            let var = st.cond.iter().find(|(a, b)| **b && a.contains("params[*] is ")).map(|(a, _)| a.rsplit(" is ").next().unwrap_or("").to_string()).unwrap_or_else(|| {
+                let excluded: Vec<String> = st.cond.iter().filter(|(a, b)| !**b && a.contains("params[*] is ")).map(|(a, _)| a.rsplit(" is ").next().unwrap_or("").to_string()).collect();
+                let rest: Vec<&str> = ["Type", "Const", "Lifetime"].into_iter().filter(|k| !excluded.iter().any(|e| e == k)).collect();
+                if rest.len() == 1 { rest[0].to_string() } else { "other".into() }
+            });
+            // recorded by insertion, or present in the returned set
+            let in_value = match fl { Flow::Val(v) | Flow::Ret(v) => v.any(&|y| matches!(y, Val::Sym { path, .. } if path.contains(&format!("params[*].{var}")))), _ => false };
+            let inserted = notes(st).iter().any(|n| n.contains(".insert(") && n.contains(&format!("params[*].{var}"))) || in_value;
+            let e = ins.entry(var).or_insert(false);
+            *e = *e || inserted;
         }
         let ok = ins.get("Type") == Some(&true) && ins.get("Const") == Some(&true) && ins.iter().all(|(k, v)| k == "Type" || k == "Const" || !*v);
         rep.check(ok, "DM-mentions-param", &f.qual, "param-kinds", &format!("the set of generic parameters is not `type and const parameters, not lifetimes`: {ins:?}"), &site(&f), json!({}));
